@@ -23,8 +23,9 @@ def relevant(metric, pos, neg, ep, en):
 
 def bounded_roundtrip(ctx, chk, tier):
     """R02.5: the derived closed forms evaluated on order-type representatives (sizes 1..4; bounded)."""
-    reps = list(SCORE_REPS.items())
-    easy = EASY_REPS if tier == "thorough" else EASY_REPS[:3]
+    from .thr import reps_for, easy_for
+    reps = reps_for(tier)
+    easy = easy_for(tier)
     for metric in METRICS:
         q = SCORES + ".threshold_at_" + metric
         for sc, ec in GAMMAS:
